@@ -83,6 +83,7 @@ class SyncPlan(object):
         self.pushed = []       # completed/attempted pushes: dict(path, mode, data, mtime, status)
         self.wrte_cap = None   # max WRTE payload (host's maxdata by default)
         self.hold_fail = False
+        self.die_on = set()        # device paths: the sync service dies (CLSE, no reply) when a STAT/LIST/RECV request names one of them
         self.early_reply = False   # replies may go on the wire BEFORE the OKAY that acknowledges the request WRTE (legal per protocol.txt; adbd itself never does it)
 
     # ---- reply shaping
@@ -232,7 +233,9 @@ class SyncService(object):
     def _handle(self, name, arg, data, n):
         plan = self.plan
         if self.state == "idle":
-            if name == "STAT":
+            if name in ("STAT", "LIST", "RECV") and data in plan.die_on:
+                self._close(n)
+            elif name == "STAT":
                 self._reply(plan.stat_reply(data), n)
             elif name == "LIST":
                 self._reply(plan.list_reply(data), n)
@@ -328,6 +331,8 @@ class SimDevice(object):
         self.refuse = set()       # dests refused with CLSE
         self.eager = False        # True: the device puts everything it can say on the wire as soon as a host packet arrives (a fast device);
                                   # False: it decides lazily, when the host reads (a slow device)
+        self.window = 1           # device WRTEs that may be un-acknowledged at once (1 = the protocol's stop-and-wait; more = a device that writes ahead of the acks)
+        self.early_close = False  # True: a CLSE may follow the stream's last WRTE without waiting for the host's OKAY (adbd closes when the process exits)
         self.silent = False       # device stops talking completely
         self.stop_after = None    # device stops talking once this many packets were emitted (absolute index)
         self.mute_streams = set() # local ids whose packets are withheld
@@ -424,8 +429,8 @@ class SimDevice(object):
         elif cmd == "OKAY":
             st = self.streams.get(pkt.arg0)
             if st is not None and st.remote == pkt.arg1 and st.inflight:
-                st.inflight = False
                 st.acked += 1
+                st.inflight = len(st.written) > st.acked
         elif cmd == "WRTE":
             st = self.streams.get(pkt.arg0)
             if st is not None and st.remote == pkt.arg1 and not st.host_closed and not st.dead:
@@ -538,7 +543,7 @@ class SimDevice(object):
                 continue
             if st.ctrl:
                 out.append((st.ctrl, st))
-            if st.data and not st.inflight:
+            if st.data and (len(st.written) - st.acked < self.window or (self.early_close and st.data[0].cmd == "CLSE")):
                 it = st.data[0]
                 if st.okays_emitted >= it.min_okays and not it.hold:
                     out.append((st.data, st))
